@@ -1,6 +1,7 @@
 package rules
 
 import (
+	"go/token"
 	"strings"
 
 	"mcvet/engine"
@@ -566,6 +567,51 @@ func detectsDuplicates(fn *ssa.Function) bool {
 	if fn == nil || len(fn.Blocks) == 0 {
 		return false
 	}
+	// shape 2: a local set is filled per item and its size compared with the number of items; unequal ⇒ false
+	for _, b := range fn.Blocks {
+		for i := range b.Succs {
+			l, has := engine.EdgeLit(b, i)
+			if !has || l.Op != token.EQL || l.X == nil || l.Y == nil || l.Pos {
+				continue
+			}
+			isSetLen := func(v ssa.Value) bool {
+				c, isC := v.(*ssa.Call)
+				if !isC || engine.CallKey(c.Common()) != "builtin.len" || len(c.Common().Args) != 1 {
+					return false
+				}
+				mk, isMk := engine.ResolveLocal(c.Common().Args[0]).(*ssa.MakeMap)
+				if !isMk || mk.Referrers() == nil {
+					return false
+				}
+				for _, u := range *mk.Referrers() {
+					if _, isMU := u.(*ssa.MapUpdate); isMU {
+						return true
+					}
+				}
+				return false
+			}
+			isLen := func(v ssa.Value) bool {
+				c, isC := v.(*ssa.Call)
+				return isC && engine.CallKey(c.Common()) == "builtin.len"
+			}
+			if !(isSetLen(l.X) && isLen(l.Y) || isSetLen(l.Y) && isLen(l.X)) {
+				continue
+			}
+			// the 'sizes differ' edge runs straight into 'return false'
+			w := engine.Query{Fn: fn, From: []engine.Point{{B: b.Succs[i]}}, CutEdge: func(_ *ssa.BasicBlock, _ int, x *Lit) bool { return x != nil },
+				Target: func(x ssa.Instruction) bool {
+					rt, isR := x.(*ssa.Return)
+					if !isR || len(rt.Results) == 0 {
+						return false
+					}
+					c, isC := engine.RetVal(rt, 0).(*ssa.Const)
+					return isC && c.Value != nil && c.Value.String() == "false"
+				}}.Find()
+			if w != nil {
+				return true
+			}
+		}
+	}
 	for _, b := range fn.Blocks {
 		for _, in := range b.Instrs {
 			lk, isL := in.(*ssa.Lookup)
@@ -741,14 +787,14 @@ func r05_10(r *Report, p *Program) {
 	ok, why := true, ""
 	nSet := 0
 	for _, m := range engine.LocalMutations(f, f.Params[0]) {
-		if m.What == "SetAnnotations" {
-			nSet++
+		if m.What == "SetAnnotations" || m.What == "SetNestedStringMap[metadata.annotations]" || m.What == "SetNestedField[metadata.annotations]" || m.What == "SetNestedMap[metadata.annotations]" {
+			nSet++ // the annotations map is replaced as a whole
 			continue
 		}
 		ok, why = false, "SetLastApplied edits the object through "+m.What+" ("+p.InstrPos(m.Instr)+"): a nested write in place can land in a sub-tree the merge result shares with the caller's desired object (observed child without annotations)"
 	}
 	if nSet == 0 && ok {
-		ok, why = false, "SetLastApplied no longer calls SetAnnotations"
+		ok, why = false, "SetLastApplied no longer replaces the annotations map"
 	}
 	for _, cs := range callsTo(f, false, "Unstructured.SetAnnotations") {
 		a := cs.Common().Args[1]
